@@ -294,6 +294,16 @@ class SmtSys:
             hashes = tuple(ret) if ret is not None else self.ref.walk(m2, op[1])[1]
             live["p"].update(op[1], v, hashes)
 
+    def live_check(self, live):
+        viols = []
+        if "C14" in self.props:
+            v = self._probe_same(live["t"], live["m"], "long_lived_object")
+            if v:
+                viols.append(v)
+        if live["p"] is not None:
+            viols += self.proof_in_sync(live["p"], live["m"], live["t"].root_hash, "long_lived_object")
+        return viols
+
     def live_canon(self, live):
         t = live["t"]
         return self.canon((t.root_hash, dict(t.db), self.psnap(live["p"])))
